@@ -112,7 +112,9 @@ MPerms(cnt) ==
     IN IF live = {} THEN {<<>>}
        ELSE UNION {{<<i>> \o s : s \in MPerms([cnt EXCEPT ![i] = cnt[i] - 1])} : i \in live}
 
-Configs == UNION {[n : {k}, w : [1..k -> 0..MaxW], dc : [1..k -> {0, 1}]] : k \in 1..MaxN}
+(* the "closed" policy never reads the datacenter tags: one representative tagging suffices for it *)
+DcChoices(k) == IF Pols \subseteq {PolClosed} THEN {[i \in 1..k |-> 0]} ELSE [1..k -> {0, 1}]
+Configs == UNION {[n : {k}, w : [1..k -> 0..MaxW], dc : DcChoices(k)] : k \in 1..MaxN}
 
 (* queues of classes that no exercised policy reads are irrelevant: one representative order *)
 ClassesUsed == UNION {CASE p = PolForce -> {"local"} [] p = PolPrefer -> {"local", "remote"} [] OTHER -> {"global"} : p \in Pols}
